@@ -100,7 +100,10 @@ Uses == {Comp(Alias("plain"), <<Arg("name", StrL("Ann"))>>, <<>>, 1), Comp(Alias
          Comp(Alias("named"), <<Arg("n", Var("cnt")), Arg("big", Var("cnt"))>>, <<>>, 1),
          Comp(Alias("both"), <<Arg("n", StrL("b"))>>, <<Sl("x", <<H("X")>>), Sl("", <<H("D")>>)>>, 1),
          Comp(Alias("both"), <<Arg("n", StrL("c"))>>, <<Sl("", <<Comp(Alias("plain"), <<Arg("name", StrL("in"))>>, <<>>, 1)>>)>>, 1),
-         Comp(Ref("card"), <<Arg("name", Var("who"))>>, <<>>, 1)}
+         Comp(Ref("card"), <<Arg("name", Var("who"))>>, <<>>, 1),
+         \* an argument whose value is nil, empty or falsy is bound like any other
+         Comp(Alias("plain"), <<Arg("name", NilL)>>, <<>>, 1), Comp(Alias("two"), <<Arg("a", StrL("")), Arg("b", IntL(0)), Arg("c", BoolL(FALSE))>>, <<>>, 1),
+         Comp(Alias("named"), <<Arg("n", NilL), Arg("big", NilL)>>, <<Sl("head", <<H("h")>>)>>, 1)}
 Data07 == <<[n |-> "who", v |-> S("Bo")], [n |-> "cnt", v |-> I(3)], [n |-> "xs", v |-> A(<<S("p"), S("q")>>)], [n |-> "yes", v |-> B(TRUE)]>>
 \* what a component assigns never reaches the page, the next use, or the next pass of a loop - with and without arguments / slots
 SetterUses == {Comp(Alias("setter"), <<>>, <<>>, 1), Comp(Alias("setter"), <<Arg("z", IntL(1))>>, <<>>, 1), Comp(Alias("setter"), <<Arg("t", StrL("arg"))>>, <<>>, 1)}
